@@ -81,6 +81,59 @@ def run(ctx):
             r.ok(rule, 'data_type_valid', 'for the Value of a Variable data_type_valid is validate_value_to_write(..)', loc=b.loc)
         else:
             r.fail(rule, 'data_type_valid', 'the value written to a Variable is not type-checked with validate_value_to_write on every path', loc=b.loc)
+    # ---------------------------------------------------------------- type compatibility
+    rule = 'type-compatible'
+    b = db.body(AS + 'validate_value_to_write')
+    if b is None:
+        r.lost(rule, 'validate_value_to_write', 'not found')
+    else:
+        F = ctx.facts(b)
+        v = b.local_by_name('valid')
+        defs = b.defs().get(v[0], []) if v else []
+        if not defs:
+            r.lost(rule, 'valid', 'result flag of validate_value_to_write not found')
+        scalar_rank = reachable_under(b, F, lambda e: e[0] == 'call' and e[1].endswith('Variable::value_rank'), -1)
+        nacc = 0
+        def subtype_only(local, depth=0):
+            ds = b.defs().get(local, [])
+            return bool(ds) and all((d[0] == 'call' and d[2].callee.endswith('AddressSpace::is_subtype')) or
+                                    (d[0] == 'stmt' and d[3][0] == 'use' and d[3][1][0] == 'k' and d[3][1][1] in ('0', 'false')) for d in ds)
+        for d in defs:
+            if d[0] == 'call':
+                if d[2].callee.endswith('AddressSpace::is_subtype'):
+                    nacc += 1
+                    r.ok(rule, 'accept@bb%d' % d[1], 'valid = is_subtype(value type, node data type)', loc=d[2].loc)
+                else:
+                    r.fail(rule, 'accept@bb%d' % d[1], 'the validity of a written value is decided by %s, not by a subtype test' % d[2].callee, loc=d[2].loc)
+                continue
+            if d[0] != 'stmt':
+                r.fail(rule, 'accept@bb%d' % d[1], 'unrecognised definition of the validity flag', loc=b.loc); continue
+            rv = d[3]
+            if rv[0] == 'use' and rv[1][0] == 'k':
+                if rv[1][1] in ('0', 'false'):
+                    continue
+                lits = [fmt_lit(b, l) for l, e in F.literals_at(d[1], d[2])]
+                nacc += 1
+                key = 'accept@bb%d' % d[1]
+                if any(x.endswith('(*value(_3)) is Empty') or re.search(r'\(\*value\(_\d+\)\) is Empty$', x) for x in lits):
+                    r.ok(rule, key, 'an empty value is always writable', loc=b.loc)
+                elif any(re.match(r'^AddressSpace::is_subtype\(.*\) == True$', x) for x in lits):
+                    r.ok(rule, key, 'accepted under is_subtype(..) == true', loc=b.loc)
+                elif any(x.endswith('is ByteString') for x in lits) and any(re.search(r'data_type\(.*\) eq Into::into\(DataTypeId::Byte\)$', x) for x in lits):
+                    if d[1] in scalar_rank:
+                        r.fail(rule, key, 'a ByteString is accepted for a Byte variable on a path that is feasible with ValueRank -1 (Scalar): '
+                               'the exception exists for Byte arrays only', loc=b.loc)
+                    else:
+                        r.ok(rule, key, 'ByteString accepted for a Byte variable only on paths infeasible with ValueRank -1 (Scalar)', loc=b.loc)
+                else:
+                    r.fail(rule, key, 'a written value is declared valid without an empty value, a successful subtype test or the ByteString/Byte[] exception', loc=b.loc)
+            elif rv[0] == 'use' and rv[1][0] in ('cp', 'mv') and not rv[1][1][1] and subtype_only(rv[1][1][0]):
+                nacc += 1
+                r.ok(rule, 'accept@bb%d' % d[1], 'valid = result of the subtype test', loc=b.loc)
+            else:
+                r.fail(rule, 'accept@bb%d' % d[1], 'unrecognised definition of the validity flag: %s' % fmt_sym(b, F.sym_rvalue(rv, 0, d[1]))[:80], loc=b.loc)
+        r.count('type_accepting_sites', nacc)
+        r.floor(rule, 'type_accepting_sites', nacc, 4)
     # ---------------------------------------------------------------- is_writable
     rule = 'is-writable'
     b = db.body(AS + 'is_writable')
